@@ -28,7 +28,8 @@ FUNCTIONS = ['uxarray.grid.intersections.fast_constant_lat_intersections',
     'uxarray.grid.slice._slice_edge_indices',
     'uxarray.grid.slice._slice_face_indices@source_is_itself_a_subset',
     'uxarray.grid.grid.Grid.get_ball_tree',
-    'uxarray.grid.grid.Grid.get_kd_tree']
+    'uxarray.grid.grid.Grid.get_kd_tree',
+    'uxarray.grid.grid.Grid.get_faces_at_constant_latitude']
 STANDINS = ["subsets"]
 ASSUMPTIONS = []
 EXPLANATION = ""
